@@ -425,6 +425,8 @@ func runC09(p *Prog, r *Report) {
 	ruleNil(p, r, "R-NIL", p.pkgPath("font/opentype/tables"), []string{p.pkgPath("font/opentype/tables"), p.pkgPath("font")}, 20, 30)
 	r.Explain = append(r.Explain, "R-PROGRESS: every parse loop that advances its offset by the length returned by a nested reader and whose trip count is a 32/64-bit value of the file makes progress: at each successful return of the nested reader the returned length is provably at least 1 (P-LIN at the return, with the same lower bound of nested readers on their success branch, to a fixpoint).")
 	ruleProgress(p, r, []string{"font/opentype/tables", "font/opentype", "font", "font/cff"}, 3)
+	r.Explain = append(r.Explain, "R-OPBUDGET: the charstring interpreter (Machine.Run) increments its operator counter and compares it with a constant, failing when exceeded, on every path from the loop head to the dispatch of an operator (handler.Apply), and every iteration that dispatched an operator carries the incremented value: subroutine calls multiply the work, the nesting limit alone does not bound it.")
+	ruleOpBudget(p, r, "font/cff/interpreter", "Machine", "Run", "Apply")
 	r.Assumptions = append(r.Assumptions,
 		"R-GEN models int as 64 bits and does not model overflow of offset arithmetic; accesses to slices of other element types (parsed records) are NOT covered",
 		"termination of loops and absence of index-out-of-range panics on parsed (non-byte) structures in the ~9000 lines of hand-written table processing are NOT decided",
@@ -440,6 +442,10 @@ func controlsC09(cp *Prog, r *Report) {
 	}, "(*rd.Loader).tableBad", "rd.parseBad", "rd.parseWrapBad")
 	expectControl(r, "R-COUNT", func(cr *Report) { ruleCount(cp, cr, []string{"rd"}, 3) }, "rd.parseN(count)<-rd.callBadDiff")
 	expectControl(r, "R-LOOP", func(cr *Report) { ruleLoop(cp, cr, []string{"rd"}) }, "rd.followBad/loop@g")
+	expectControl(r, "R-OPBUDGET", func(cr *Report) {
+		ruleOpBudget(cp, cr, "rd", "machine", "RunGood", "Apply")
+		ruleOpBudget(cp, cr, "rd", "machine", "RunBad", "Apply")
+	}, "(*rd.machine).RunBad/Apply")
 	expectControl(r, "R-PROGRESS", func(cr *Report) { ruleProgress(cp, cr, []string{"rd"}, 2) }, "rd.parseAllBad/advance by the length of parseRecBad")
 	expectControl(r, "R-DIV", func(cr *Report) { ruleDiv(cp, cr, []string{"rd"}, nil, 3) }, "rd.divSwitchBad/kind", "rd.divBad/ppem")
 	controlsC16(cp, r)
